@@ -405,6 +405,24 @@ fn gen_c08(rng: &mut Rng, tier: Tier, with_panics: bool) -> LoopScn {
                 p.phase = PanicPhase::Counter;
             }
         }
+        // A destructor that panics in the drop phase of a sample. (The
+        // property's panic clause names the benchmarked function and the
+        // generator; the guard that keeps the other threads from hanging is
+        // the same for every point of a round, and the unchanged tree ends
+        // such a run with a panic on the caller too.)
+        if rng.chance(1, 6) {
+            let phase = if s.oshape.has_drop() && !(s.eff_ishape() == Shape::Z && s.oshape == Shape::Z) {
+                Some(PanicPhase::DropOutput)
+            } else if s.entry.by_ref() && s.eff_ishape().has_drop() {
+                Some(PanicPhase::DropInput)
+            } else {
+                None
+            };
+            if let (Some(ph), Some(p)) = (phase, &mut s.panic) {
+                p.phase = ph;
+                p.index = rng.below(6) as u32;
+            }
+        }
         // Sometimes a second site on other threads, at its own phase / call.
         if rng.chance(3, 10) {
             let first = s.panic.clone();
